@@ -192,11 +192,64 @@ func shrink(script interface{}) []interface{} {
 	return out
 }
 
+// enumerate returns every operation sequence up to a bounded depth over two
+// packet identifiers, for a one-stage queue (QoS 1 out: register 1/2, PUBACK
+// 1/2, collect) and for the two-stage queue (QoS 2 out: register 1/2, PUBREC
+// 1/2, PUBCOMP 1/2, collect), executed by one caller against the list model.
+func enumerate(tier string) []interface{} {
+	d1, d2 := 5, 4
+	if tier == "thorough" {
+		d1, d2 = 7, 5
+	}
+	var out []interface{}
+	build := func(kind string, alpha []Op, depth int) {
+		idx := make([]int, depth)
+		for n := 1; n <= depth; n++ {
+			for i := range idx[:n] {
+				idx[i] = 0
+			}
+			for {
+				sc := &Script{Kind: kind, Tasks: [][]Op{nil}}
+				for i := 0; i < n; i++ {
+					op := alpha[idx[i]]
+					op.Tok = i + 1
+					sc.Tasks[0] = append(sc.Tasks[0], op)
+				}
+				sc.Tasks[0] = append(sc.Tasks[0], Op{K: "acked"})
+				out = append(out, sc)
+				k := n - 1
+				for k >= 0 {
+					idx[k]++
+					if idx[k] < len(alpha) {
+						break
+					}
+					idx[k] = 0
+					k--
+				}
+				if k < 0 {
+					break
+				}
+			}
+		}
+	}
+	build("pub1", []Op{
+		{K: "wait", Type: refmqtt.PUBLISH, ID: 1, QoS: 1, Size: 3}, {K: "wait", Type: refmqtt.PUBLISH, ID: 2, QoS: 1, Size: 5},
+		{K: "ack", Type: refmqtt.PUBACK, ID: 1}, {K: "ack", Type: refmqtt.PUBACK, ID: 2}, {K: "acked"},
+	}, d1)
+	build("pub2out", []Op{
+		{K: "wait", Type: refmqtt.PUBLISH, ID: 1, QoS: 2, Size: 3}, {K: "wait", Type: refmqtt.PUBLISH, ID: 2, QoS: 2, Size: 5},
+		{K: "ack", Type: refmqtt.PUBREC, ID: 1}, {K: "ack", Type: refmqtt.PUBREC, ID: 2},
+		{K: "ack", Type: refmqtt.PUBCOMP, ID: 1}, {K: "ack", Type: refmqtt.PUBCOMP, ID: 2}, {K: "acked"},
+	}, d2)
+	return out
+}
+
 func init() {
 	world.Register(&world.Def{
-		Prop: "C13", World: "ackq", Gen: gen, NewScript: func() interface{} { return &Script{} }, Run: Run, Shrink: shrink,
+		Enumerate: enumerate,
+		Prop:      "C13", World: "ackq", Gen: gen, NewScript: func() interface{} { return &Script{} }, Run: Run, Shrink: shrink,
 		MustProbes: []string{"grew_beyond_initial_capacity", "concurrent_phase_starts_on_shaped_ring"},
-		Rule:       "script = one of the six queues of a sessions.Session (QoS 1 out, QoS 2 in, QoS 2 out, SUBSCRIBE, UNSUBSCRIBE, PINGREQ) driven by one caller with 30-330 (a quarter: 1000-5000) operations, half of those letting up to 600 requests pile up (growth beyond the initial 16 slots while wrapped), or by 1-3 registering tasks plus one processor task with 6-35 operations (half of these start, after a sequential prefix judged by the list model, on a ring that is wrapped and full or nearly full, so that a concurrent registration makes it grow while acknowledgements are recorded); operations: register (small identifier pool for collisions and reuse, refused kinds), acknowledge (oldest first or any order, unknown identifiers, PUBREC before PUBCOMP, non-acknowledgement types), collect. The harness overwrites its source buffers after every call. Oracle: list model (register ignores an identifier in flight, unknown identifiers change nothing, collect returns the maximal head prefix that carries a terminal acknowledgement, request/ack bytes and completion token identical); porcupine for concurrent histories. Non-trivial = more than two calls.",
+		Rule:       "script = one of the six queues of a sessions.Session (QoS 1 out, QoS 2 in, QoS 2 out, SUBSCRIBE, UNSUBSCRIBE, PINGREQ) driven by one caller with 30-330 (a quarter: 1000-5000) operations, half of those letting up to 600 requests pile up (growth beyond the initial 16 slots while wrapped), or by 1-3 registering tasks plus one processor task with 6-35 operations (half of these start, after a sequential prefix judged by the list model, on a ring that is wrapped and full or nearly full, so that a concurrent registration makes it grow while acknowledgements are recorded); operations: register (small identifier pool for collisions and reuse, refused kinds), acknowledge (oldest first or any order, unknown identifiers, PUBREC before PUBCOMP, non-acknowledgement types), collect. The harness overwrites its source buffers after every call. Oracle: list model (register ignores an identifier in flight, unknown identifiers change nothing, collect returns the maximal head prefix that carries a terminal acknowledgement, request/ack bytes and completion token identical); porcupine for concurrent histories. Enumerated in every batch in addition: every operation sequence up to depth 5 (thorough: 7) over {register 1, register 2, PUBACK 1, PUBACK 2, collect} on the QoS 1 queue and up to depth 4 (thorough: 5) over {register 1/2, PUBREC 1/2, PUBCOMP 1/2, collect} on the QoS 2 queue. Non-trivial = more than two calls.",
 		Real:       []string{"sessions.Session.Init, sessions.Ackqueue (Wait, Ack, Acked, grow)", "message codecs used to copy requests and acknowledgements"},
 		Stub:       []string{"sync (simulator model)", "callers (scripted tasks)"},
 		Level:      "exploration", QuickRuns: 20000, ThoroughRuns: 2000000,
